@@ -116,10 +116,28 @@ def check_logs(rows, log, add, kind):
 
 
 def run_fit(rows, case):
+    from mc import recorders
+
     psms = make_psms(rows)
     model = make_model(case["kind"], first_only=False, max_iter=case["max_iter"], shuffle=case["shuffle"], rng=case["seed"])
+    del recorders.SEARCH_LOG[:]
     model.fit(psms)
+    model.search_log_ = list(recorders.SEARCH_LOG)
     return model
+
+
+def check_search(rows, model, add):
+    """The hyper-parameter search (estimators wrapped in a search object) must also get rows and labels of the same PSM:
+    positives = accepted targets of a best feature, negatives = all decoys."""
+    label = {r["key"]: r["target"] for r in rows}
+    for _, keys, y in getattr(model, "search_log_", []):
+        bad_pos = [k for k, v in zip(keys, y) if v == 1 and not label.get(k, False)]
+        bad_neg = [k for k, v in zip(keys, y) if v == 0 and label.get(k, True)]
+        if bad_pos or bad_neg:
+            add("search-label-of-other-psm", f"the hyper-parameter search received misaligned rows/labels: decoy rows labelled "
+                f"positive {bad_pos[:3]}, target rows labelled negative {bad_neg[:3]}")
+        elif {k for k, v in zip(keys, y) if v == 0} != {k for k, t in label.items() if not t}:
+            add("search-negatives-not-all-decoys", "the hyper-parameter search did not receive exactly the decoys as negatives")
 
 
 def check_case(case, acc, ref_cache=None):
@@ -156,6 +174,10 @@ def check_case(case, acc, ref_cache=None):
         add("training-succeeds-only-for-this-order", f"Model.fit fails for the stored order ({ref}) but trains for row order {perm}, shuffle={case['shuffle']}")
         return "trained"
     nfit = check_logs(rows, model.estimator.log_, add, case["kind"])
+    if case["kind"].startswith("grid:"):
+        if not model.search_log_:
+            add("search-not-called", "the search wrapper was never fitted")
+        check_search(rows, model, add)
     if nfit != case["max_iter"]:
         add("fit-count", f"{nfit} fit calls for max_iter={case['max_iter']}")
     # invariance of the learned model and of its predictions
@@ -245,6 +267,14 @@ def run(ctx):
                     kinds = ("linear", "proba") if (n == 6 or not ctx.quick) and mi <= 3 and n < 8 else ("linear",)
                     for kind in kinds:
                         cases.append(dict(n=n, perm=list(perm), shuffle=shuffle, max_iter=mi, kind=kind, seed=1))
+    # estimators wrapped in a hyper-parameter search (like the default PercolatorModel)
+    for perm in itertools.permutations(range(6)):
+        for shuffle in (True, False):
+            cases.append(dict(n=6, perm=list(perm), shuffle=shuffle, max_iter=2, kind="grid:linear", seed=1))
+    if not ctx.quick:
+        for perm in itertools.permutations(range(7)):
+            for shuffle in (True, False):
+                cases.append(dict(n=7, perm=list(perm), shuffle=shuffle, max_iter=2, kind="grid:linear", seed=2))
     # second dataset variant and other seeds on a structured subset
     for variant in (1, 2):
         for perm in structured_perms(8, 200 if ctx.quick else 384):
